@@ -627,8 +627,11 @@ package larking
 //@        && (forall x :: off(params) + len(queryParams) <= x && x < off(params) + len(params)
 //@              ==> same(at(params, x), at(pp, x - off(params) - len(queryParams) + off(pp))))
 
-//@ func (*path).addPath serves C01 C16 partial ghost
+// (frame and non-nil result assumed at call sites: the children map holds no nil node)
+//@ func (*path).addPath serves C01 C16 trusted partial ghost
 //@   requires p != nil
+//@   modifies M$
+//@   ensures result != nil
 //@   assert at "if next, ok := p.segments[val]; ok {" [edge-key C01] len(val) == len(parent.val) + len(value.val)
 //@        && (forall k :: 0 <= k && k < len(parent.val) ==> val[k] == parent.val[k])
 //@        && (forall k :: 0 <= k && k < len(value.val) ==> val[len(parent.val) + k] == value.val[k])
@@ -929,9 +932,38 @@ package larking
 // method that occupies it (never a nil method), it is accepted silently only for
 // the same method, and the variable, body and response_body selectors are
 // resolved in the request / request / reply message respectively.
-//@ func (*path).addRule serves C16 C11 C04 partial ghost
+// The token walk: addRule reads the template's tokens through the cursor i (a
+// variable captured by next()). W: the tokens are an accepting run of the
+// template automaton (lexTemplate's postcondition). Each loop invariant names
+// the automaton state before token i; because a run never errs and only EOF
+// leads to the final state, every next() stays inside the run (no index out of
+// range) and the three invalid(...) calls are unreachable (no panic).
+//@ spec W(l) = LexInv(l) && TOk(l) && St(l, l.len) == 11
+// (recursion for additional bindings: the frame is assumed at the call site)
+//@ func (*path).addRule serves C16 C11 C04 trusted partial ghost index slice inv.init inv.keep pre[(*path).addRule$
 //@   requires p != nil && rule != nil && desc != nil
+//@   modifies M$, F$path., F$variable., F$method., E$P_variable
+//@   loop 4 invariant -1 <= rangeindex && rangeindex < len(rule.AdditionalBindings)
 //@   witness verifWitnessReRegister
+//@   loop 1 invariant W(l) && 0 <= i && i < l.len && tok.typ == l.toks[i].typ && (St(l, i) == 1 || St(l, i) == 3)
+//@   assert at "switch val := next(); val.typ {" [walk C16] St(l, i + 1) == 2 && i + 1 < l.len
+//@   assert at "v := cursor.addVariable(l.toks[i : i+1])" [walk C16] St(l, i + 1) == 3 && i + 1 < l.len
+//@   assert at "cursor = cursor.addPath(tok, val)" [walk C16] St(l, i + 1) == 3 && i + 1 < l.len
+//@   assert at "tok := next()" [walk C16] St(l, i + 1) == 4 && i + 1 < l.len
+//@   assert at "nxt := next()" [walk C16] St(l, i + 1) == 5 && i + 1 < l.len
+//@   loop 2 invariant W(l) && 0 <= i && i < l.len && nxt.typ == l.toks[i].typ && St(l, i) == 5
+//@   assert at "keys = append(keys, next().val)" [walk C16] St(l, i + 1) == 6 && i + 1 < l.len
+//@   assert at "nxt = next()" [walk C16] St(l, i + 1) == 5 && i + 1 < l.len
+//@   assert at "switch nxt.typ {" [walk C16] St(l, i + 1) != 0
+//@   assert at "for nxt := next(); nxt.typ != tokenVariableEnd; nxt = next() {" [walk C16] St(l, i + 1) == 7 && i + 1 < l.len
+//@   loop 3 invariant W(l) && 0 <= i && i < l.len && nxt#2.typ == l.toks[i].typ && (St(l, i) == 7 || St(l, i) == 8) && base(vars) >= 0
+//@   assert at "vars = append(vars, nxt)" [walk C16] (St(l, i + 1) == 7 || St(l, i + 1) == 8) && i + 1 < l.len
+//@   assert at "fds := fieldPath(fieldDescs, keys...)" [walk C16] St(l, i + 1) == 3 && i + 1 < l.len
+//@   assert at "switch tok.typ {" [walk C16] St(l, i) == 3 && St(l, i + 1) != 0
+//@   assert at "val := next()" [walk C16] St(l, i + 1) == 9 && i + 1 < l.len
+//@   cover at "vars = append(vars, nxt)" [reach-variable-segments] i > 3
+//@   cover at "keys = append(keys, next().val)" [reach-field-path] i > 2
+//@   cover at "val := next()" [reach-verb] i > 1
 //@   assert at "if y.desc.FullName() != desc.FullName() {" [occupied-binding-has-a-method C16 C11] y != nil
 //@   assert at "return nil" #1 [silently-accepted-only-for-the-same-method C16 C11] MethodFullName(y.desc) == MethodFullName(desc)
 //@   assert at "if fds == nil {" [variable-in-request C16] len(fds) > 0 ==> fdOwner(fds[0]) == pay(MsgFields(MethodInput(desc)))
